@@ -22,12 +22,12 @@ PROPERTY = 'C19'
 LEVEL = 'model_checking'
 TARGET = 'checks.c19:run'
 
-SETTINGS = ['T', 'A', 'S1', 'TB']
+SETTINGS = ['T', 'A', 'S1', 'TB', 'OP']
 MAX_INV = 2
 
 
 # ------------------------------------------------------------------------------------------- model
-def model_successors(hist):
+def model_successors(hist, reduced=False):
     depth = 0
     ninv = 0
     for ev in hist:
@@ -39,10 +39,12 @@ def model_successors(hist):
             depth -= ev[1]
         elif ev[0] == 'mkinv':
             ninv += 1
-    out = [['push', s] for s in SETTINGS] + [['read']]
+    out = [['push', s] for s in SETTINGS if not (reduced and s == 'OP')] + [['read']]
     if ninv < MAX_INV:
         out.append(['mkinv'])
     out += [['apply', i] for i in range(ninv)]
+    if not reduced:
+        out += [['applyj', i] for i in range(ninv)]   # through ONE filter_jit function per history (shared compilation cache)
     if depth > 0:
         out.append(['pop'])
         out += [['exc', k] for k in range(1, depth + 1)]
@@ -51,6 +53,7 @@ def model_successors(hist):
 
 def canon(hist):
     stack, inv = [], []
+    used = set()
     for ev in hist:
         if ev[0] == 'push':
             stack.append(ev[1])
@@ -60,20 +63,23 @@ def canon(hist):
             del stack[-ev[1]:]
         elif ev[0] == 'mkinv':
             inv.append(tuple(stack))
-    return (tuple(stack), tuple(inv))
+        elif ev[0] == 'applyj':
+            used.add(model_fp(inv[ev[1]]))
+    # the shared jitted function remembers which configurations it has been traced with: part of the state
+    return (tuple(stack), tuple(inv), tuple(sorted(map(repr, used))))
 
 
-FIELDS = {'T': {'throw': True}, 'A': {'cb': 'A'}, 'S1': {'solver': 'CG1'}, 'TB': {'throw': True, 'cb': 'B'}}
+FIELDS = {'T': {'throw': True}, 'A': {'cb': 'A'}, 'S1': {'solver': 'CG1'}, 'TB': {'throw': True, 'cb': 'B'}, 'OP': {'opts': 'P', 'cb': 'A'}}
 
 
 def model_fp(stack):
-    d = {'solver': 'CG0', 'throw': False, 'cb': 'default', 'opts': True}
+    d = {'solver': 'CG0', 'throw': False, 'cb': 'default', 'opts': 'none'}
     for s in stack:
         d.update(FIELDS[s])
     return (d['solver'], d['throw'], d['cb'], d['opts'])
 
 
-def bfs_cases(n):
+def bfs_cases(n, reduced=False):
     """All transitions (history + one event) out of one representative per canonical state, depth <= n."""
     seen = {canon(())}
     frontier = collections.deque([[]])
@@ -82,7 +88,7 @@ def bfs_cases(n):
         h = frontier.popleft()
         if len(h) >= n:
             continue
-        for ev in model_successors(h):
+        for ev in model_successors(h, reduced):
             h2 = h + [ev]
             cases.append(h2)
             k = canon(h2)
@@ -106,8 +112,11 @@ SCHED_HISTORIES = [
 
 
 def plan(tier, seed):
-    n = 5 if tier == 'quick' else 6
+    n = 4 if tier == 'quick' else 5          # full alphabet (5 settings, eager and jitted apply)
     cases, nstates = bfs_cases(n)
+    seen = {repr(c) for c in cases}
+    deep, _ = bfs_cases(n + 1, reduced=True)  # one level deeper without solver_options / jitted apply
+    cases += [c for c in deep if repr(c) not in seen]
     phases = [
         {'name': 'histories', 'target': TARGET, 'cases': cases, 'x64': False, 'ctx': {'model_states': nstates, 'depth': n}},
     ]
@@ -164,11 +173,17 @@ def _setup():
     }
     f32 = jnp.float32
     S = DenseBlockDiagonalOperator(jnp.array([[2.0, 1.0], [1.0, 3.0]], f32), jax.ShapeDtypeStruct((2,), f32), 'ij,j->i')
+    SINV = DenseBlockDiagonalOperator(jnp.array([[3.0, -1.0], [-1.0, 2.0]], f32) / 5, jax.ShapeDtypeStruct((2,), f32), 'ij,j->i')
+    SET['OP'] = dict(solver_options={'preconditioner': SINV}, solver_callback=cbA)
+    import equinox
+
+    _W.update(make_fjit=lambda: equinox.filter_jit(lambda inv, x: inv.mv(x)))
 
     def fp(cfg):
         solver = 'CG1' if cfg.solver is CG1 else 'CG0' if cfg.solver is DEFAULT.solver else 'other'
         cb = 'A' if cfg.solver_callback is cbA else 'B' if cfg.solver_callback is cbB else 'default' if cfg.solver_callback is DEFAULT.solver_callback else 'other'
-        return (solver, bool(cfg.solver_throw), cb, cfg.solver_options == {})
+        opts = 'none' if cfg.solver_options == {} else 'P' if cfg.solver_options.get('preconditioner') is SINV and len(cfg.solver_options) == 1 else 'other'
+        return (solver, bool(cfg.solver_throw), cb, opts)
 
     from furax.operators import symmetric
 
@@ -201,6 +216,7 @@ def interpret(hist, problems, obs=None, ev=None, api=None, init_stack=(), spawn_
     stack = list(init_stack)
     nchecks = 0
     end_state = []
+    fjit = []
 
     def expect(what, got, want):
         nonlocal nchecks
@@ -260,24 +276,33 @@ def interpret(hist, problems, obs=None, ev=None, api=None, init_stack=(), spawn_
                 expect('captured config later', got, model_fp(st))
                 if obs is not None:
                     obs.append(('readinv', got))
-            elif e[0] == 'apply' and do_apply:
+            elif e[0] in ('apply', 'applyj') and do_apply:
                 inv, st = invs[e[1]]
                 want = model_fp(st)
                 W['calls'].clear()
                 raised = False
+                y = None
                 try:
                     with quiet():
-                        inv.mv(jnp.array([1.0, 0.0], jnp.float32))
+                        rhs = jnp.array([1.0, 0.0], jnp.float32)
+                        if e[0] == 'applyj' and not fjit:
+                            fjit.append(W['make_fjit']())   # one jitted function per history: its cache is part of the history's state
+                        y = inv.mv(rhs) if e[0] == 'apply' else fjit[0](inv, rhs)
                         jax.effects_barrier()
                 except Exception:  # noqa: BLE001
                     raised = True
-                expect('apply raises iff captured throw and 1-step solver', raised, want[1] and want[0] == 'CG1')
+                one_step = want[0] == 'CG1'
+                expect('apply raises iff captured throw and 1-step solver', raised, want[1] and one_step)
                 if not raised:
+                    import numpy as np
+
+                    sol = [round(float(v), 3) for v in np.asarray(y)]
+                    expect('solution follows the captured solver and options', sol, [0.5, 0.0] if (one_step and want[3] != 'P') else [0.6, -0.2])
                     calls = list(W['calls'])
                     if want[2] in ('A', 'B'):
                         expect('callback of the captured config fired', calls[-1][0] if calls else None, want[2])
                         if calls:
-                            expect('step count follows the captured solver', calls[-1][1] == 1, want[0] == 'CG1')
+                            expect('step count follows the captured solver and options', calls[-1][1], 1 if one_step else 2 if want[3] == 'P' else 3)
                     else:
                         expect('no foreign callback fired', calls, [])
                 expect('captured config unchanged by use', fp(inv.config), want)
@@ -508,7 +533,7 @@ def finalize(results, tier, seed):
         'traces_validated_against_impl': h['n'],
         'model_comparisons': h['checks'],
         'distinct_impl_fingerprints': distinct_impl,
-        'history_depth': 5 if tier == 'quick' else 6,
+        'history_depth': '4 (full alphabet) / 5 (without solver_options and jitted apply)' if tier == 'quick' else '5 (full alphabet) / 6 (reduced)',
         'schedules': sum(results[p]['executions'] for p in ('sched_events', 'sched_lines', 'apply_threads')),
         'schedules_per_bound': dict(per_bound),
         'sched_harnesses': sum(results[p]['n'] for p in ('sched_events', 'sched_lines', 'apply_threads')),
